@@ -670,6 +670,8 @@ LOCAL_FOREIGN = {
     "extlib.parts.deep": ["Deep", "low_name"],
     "extlib.Upper": ["Thing", "alpha_thing"],
     "extlib.aaa": ["First"],
+    "extlib._hidden": ["Inner", "low_inner"],
+    "extlib.parts._impl": ["Impl"],
 }
 LOCAL_FOREIGN_FILES = {
     "extlib/__init__.py": "".join(f"class {n}: ...\n\n\n" for n in LOCAL_FOREIGN["extlib"]),
@@ -677,6 +679,8 @@ LOCAL_FOREIGN_FILES = {
     "extlib/parts/deep.py": "".join(f"class {n}: ...\n\n\n" for n in LOCAL_FOREIGN["extlib.parts.deep"]),
     "extlib/Upper.py": "".join(f"class {n}: ...\n\n\n" for n in LOCAL_FOREIGN["extlib.Upper"]),
     "extlib/aaa.py": "".join(f"class {n}: ...\n\n\n" for n in LOCAL_FOREIGN["extlib.aaa"]),
+    "extlib/_hidden.py": "".join(f"class {n}: ...\n\n\n" for n in LOCAL_FOREIGN["extlib._hidden"]),
+    "extlib/parts/_impl.py": "".join(f"class {n}: ...\n\n\n" for n in LOCAL_FOREIGN["extlib.parts._impl"]),
 }
 
 
